@@ -9,6 +9,10 @@ import Proofs.PostProcess
 import Proofs.PostProcessWriter
 import Proofs.PostProcessShape
 import Proofs.PostProcessNames
+import Proofs.PostProcessLeaves
+import Proofs.PostProcessDests
+import Proofs.PostProcessContent
+import Proofs.PostProcessAlias
 import Gen.Facts
 
 namespace Props.C13
@@ -40,16 +44,9 @@ tree below it, for directories); the source becomes a relative symlink to the
 destination; and nothing else changes (paths not under the source, not under
 the destination, not ancestors of the outs directory).
 
-PARTIAL: this is `content_preserved` for each leaf operation in the file
-system state in which it runs.  The full statement — "after the WHOLE
-traversal every leaf's destination still holds its source's content" — needs
-in addition that later leaves touch neither an earlier destination
-(`dest_injective`) nor an earlier source (sources pairwise not nested, none of
-them under outs/); that composition over the traversal is not proved here.  It
-is false without the nesting hypothesis: see the known finding
-`C13:overlapping-outputs` (an output file inside an output directory), which
-the harness replays on the real code. -/
-theorem content_preserved_partial (ps outs : Path) (name s : String) (p : Path) (e : Entry) (fs : FS)
+This is the statement for ONE leaf operation in the file system state in which
+it runs; `content_preserved` below is the statement for the whole traversal. -/
+theorem content_preserved_leaf (ps outs : Path) (name s : String) (p : Path) (e : Entry) (fs : FS)
     (hs : s ≠ "") (hp : parsePath s = some p) (he : fs.get p = some e) (hl : e.isLink = false)
     (hin : inside ps p = true) (hfree : statExists fs statFuel (outs ++ [name]) = false)
     (hsrc : isPrefix p outs = false) (hdst : isPrefix (outs ++ [name]) p = false) :
@@ -161,11 +158,8 @@ distinct names give disjoint sub-trees:
     file-typed members are pairwise distinct;
 (3) paths below `outs/n1` and `outs/n2` coincide only if `n1 = n2`.
 
-PARTIAL: the full `dest_injective` — "the destinations of all file leaves of
-one traversal are pairwise distinct" — is the induction of (1)–(3) along the
-type together with distinctness of the (sorted, de-duplicated) keys of a typed
-map and injectivity of `key ↦ key.ext`; that composition is not proved here. -/
-theorem dest_injective_partial :
+These are the sibling-level facts; `dest_injective` below composes them along the type. -/
+theorem dest_injective_siblings :
     (∀ n i j, i < n → j < n → pad (width n) i = pad (width n) j → i = j) ∧
     (∀ ms, noDupNames ms [] = true → (memberNames ms).Nodup) ∧
     (∀ (outs : Path) n1 n2 (s1 s2 : Path), (outs ++ [n1]) ++ s1 = (outs ++ [n2]) ++ s2 → n1 = n2) :=
@@ -176,6 +170,149 @@ example : noDupNames [("a", "", .file "txt"), ("b", "a.txt", .file "")] [] = fal
     noDupNames [("a", "", .file "txt"), ("a2", "", .file ""), ("n", "", .scalar)] [] = true := by decide
 
 example : pad (width 12) 3 = "03" ∧ pad (width 12) 11 = "11" := by decide
+
+/-! ### dest_injective and content_preserved for a whole output record -/
+
+/-- GLOBAL `dest_injective`.  For a signature that passed the compiler's checks
+(`wfParams`: distinct ids and distinct output file names among the out params
+and in every struct reachable from them), take ANY `_outs` record and outs
+directory.  The `moveOutFile` calls of the traversal are exactly the list
+`leavesRec params outs top` (third conjunct: the file-system effect of
+`handleOuts` is the left fold of `moveOutFile` over that list), and their
+destinations are pairwise INCOMPARABLE — no destination is a prefix of another,
+in particular they are pairwise distinct.  Composed along the type: array
+indices via `pad`/`width`, sorted de-duplicated legal map keys, struct member
+file names under `noDupNames`. -/
+theorem dest_injective (params : List (String × String × Ty)) (outs : List (String × J)) (top : Path)
+    (h : wfParams params = true) :
+    (leavesRec params outs top).Pairwise LeafIncomp ∧
+    ((leavesRec params outs top).map Leaf.dest).Nodup ∧
+    (∀ ps fs, (handleOuts Gen.postProcessDimAware ps params outs top fs).2 =
+      runLeaves ps (leavesRec params outs top) fs) := by
+  refine ⟨leavesRec_pairwise params outs top h,
+    pairwise_incomp_nodup (leavesRec_pairwise params outs top h), fun ps fs => ?_⟩
+  rw [dim_aware]
+  exact handleOuts_run ps params outs top fs
+
+/-- non-vacuity: a signature with a nested struct, a 2-dimensional array and a typed map is well formed;
+one with two members writing `a.txt` is not -/
+example : wfParams [("s", "", .struct [("f", "", .file "txt"), ("g", "out.bin", .file ""), ("n", "", .scalar)]),
+      ("r", "", .arr (.file "") 1), ("m", "", .tmap (.arr (.file "bam") 0))] = true ∧
+    wfParams [("a", "", .file "txt"), ("b", "a.txt", .file "")] = false := by decide
+
+/-- GLOBAL `content_preserved`.  Whole record, well-formed signature, any
+`_outs`.  If the sources named by the file leaves are pairwise non-nested
+(`nonnest`), none of them is an ancestor of the outs directory or lies under it
+(`apart`), each is missing or a regular file/directory inside the pipestance
+(`status`), and nothing occupies a destination yet (`free`), then after
+`processStructOuts` the destination of EVERY leaf whose source existed holds
+exactly the tree that was at its source (`∀ suf`).
+The destinations' incomparability and their position below outs/ are not
+assumed: they are `dest_injective` and `leavesRec_under`.
+Without `nonnest` the statement is false (`overlapping_outputs_not_preserved`). -/
+theorem content_preserved (ps top : Path) (fs : FS) (params : List (String × String × Ty))
+    (outs : List (String × J)) (hwf : wfParams params = true)
+    (apart : ∀ l ∈ leavesRec params outs top, ∀ p, l.src = some p → ¬ p <+: top ∧ ¬ top <+: p)
+    (nonnest : (leavesRec params outs top).Pairwise (fun l1 l2 => ∀ p1 p2, l1.src = some p1 →
+      l2.src = some p2 → ¬ p1 <+: p2 ∧ ¬ p2 <+: p1))
+    (status : ∀ l ∈ leavesRec params outs top, ∀ p, l.src = some p →
+      fs.get p = none ∨ ∃ e, fs.get p = some e ∧ e.isLink = false ∧ inside ps p = true)
+    (free : ∀ l ∈ leavesRec params outs top, fs.get l.dest = none)
+    (l : Leaf) (hl : l ∈ leavesRec params outs top) (p : Path) (e : Entry)
+    (hsrc : l.src = some p) (he : fs.get p = some e) (suf : Path) :
+    (processStructOuts Gen.postProcessDimAware ps params (.obj outs) top fs).2.get (l.dest ++ suf)
+      = fs.get (p ++ suf) := by
+  rw [dim_aware]
+  exact content_preserved_record ps top fs params outs
+    (clean_record ps top fs params outs hwf apart nonnest status free) l hl p e hsrc he suf
+
+/-- non-vacuity: the hypotheses hold for `out txt a` bound to an existing file under the pipestance -/
+example : Clean ["ps"] ["ps", "outs"] exFS
+    (leavesRec [("a", "", .file "txt")] [("a", .str "/ps/MK/files/f")] ["ps", "outs"]) := by
+  have hl : leavesRec [("a", "", .file "txt")] [("a", .str "/ps/MK/files/f")] ["ps", "outs"]
+      = [⟨.str "/ps/MK/files/f", ["ps", "outs"], "a.txt"⟩] := by rfl
+  have hs : Leaf.src ⟨.str "/ps/MK/files/f", ["ps", "outs"], "a.txt"⟩ = some ["ps", "MK", "files", "f"] := by
+    decide
+  apply clean_record _ _ _ _ _ (by decide) <;> rw [hl]
+  · intro l hm p hp
+    rw [List.mem_singleton.mp hm, hs] at hp
+    cases hp
+    decide
+  · exact List.pairwise_singleton _ _
+  · intro l hm p hp
+    rw [List.mem_singleton.mp hm, hs] at hp
+    cases hp
+    exact Or.inr ⟨.file 7, by decide, by decide, by decide⟩
+  · intro l hm
+    rw [List.mem_singleton.mp hm]
+    decide
+
+/-- Negative witness (known finding `C13:overlapping-outputs`, in the model):
+a directory output `d` and a file output `f` naming `d/inner`.  The sources are
+nested, and after the traversal `outs/f` does NOT hold the content of
+`d/inner` (in the model the inner file has moved away with its directory; the
+real code reaches it through the symlink it left behind and breaks `outs/d`
+instead — the harness replays that on the real code). -/
+theorem overlapping_outputs_not_preserved :
+    let fs : FS := { get := fun q => if q = ["ps", "MK", "files", "d", "inner"] then some (.file 12)
+                       else if q = ["ps", "MK", "files", "d"] then some .dir else none, dom := [] }
+    (processStructOuts true ["ps"] [("d", "", .file ""), ("f", "", .file "")]
+        (.obj [("d", .str "/ps/MK/files/d"), ("f", .str "/ps/MK/files/d/inner")]) ["ps", "outs"] fs).2.get
+        ["ps", "outs", "f"] ≠ fs.get ["ps", "MK", "files", "d", "inner"] := by decide
+
+/-! ### one file bound to two outputs -/
+
+/-- The second occurrence of a file that has already been moved to `d1`
+(so the path is now the relative link back): its recorded value is `d1`, the
+location of the FIRST output, and its own derived path `outs2/name2` becomes a
+relative symlink to `d1`.  Guaranteed: the value points at a materialised
+location holding the producer's content, and the content is reachable at the
+output's own derived path.  NOT guaranteed: recorded value = own derived path
+(known finding `C13:alias-record-points-at-first`). -/
+theorem alias_second_output (ps outs2 : Path) (name2 s : String) (p d1 : Path) (e : Entry) (fs1 : FS)
+    (hs : s ≠ "") (hp : parsePath s = some p)
+    (hlink : fs1.get p = some (.link (.rel (relPath p.dropLast d1))))
+    (hd1 : fs1.get d1 = some e) (hl : e.isLink = false)
+    (hclean : ∀ c ∈ d1, cleanComp c = true)
+    (hin : inside ps p = true)
+    (hfree : statExists (mkdirAll fs1 outs2) statFuel (outs2 ++ [name2]) = false) :
+    moveOutFile ps outs2 name2 (.str s) fs1 =
+      (.str (renderPath d1),
+        symlinkAt (mkdirAll fs1 outs2) (outs2 ++ [name2])
+          (.rel (relPath (outs2 ++ [name2]).dropLast d1))) :=
+  moveOutFile_alias ps outs2 name2 s p d1 e fs1 hs hp hlink hd1 hl hclean hin hfree
+
+/-- the whole scenario, concretely: `r0 = f, r1 = f` -/
+example :
+    let r := handleOuts true ["ps"] [("r0", "", .file ""), ("r1", "", .file "")]
+      [("r0", .str "/ps/MK/files/f"), ("r1", .str "/ps/MK/files/f")] ["ps", "outs"] exFS
+    r.1.map (fun kv => (kv.1, kv.2.strVal)) = [("r0", some "/ps/outs/r0"), ("r1", some "/ps/outs/r0")] ∧
+    r.2.get ["ps", "outs", "r0"] = some (.file 7) ∧
+    r.2.get ["ps", "outs", "r1"] = some (.link (.rel ["r0"])) ∧
+    r.2.get ["ps", "MK", "files", "f"] = some (.link (.rel ["..", "..", "outs", "r0"])) := by decide
+
+/-! ### whole records and mapped top-level calls -/
+
+/-- `shape_preserved` for a whole record: the rewritten record has exactly the
+declared parameters present in `_outs`, in declaration order, each value of the
+shape of the input value at the parameter's type. -/
+theorem shape_preserved_record (ps : Path) (params : List (String × String × Ty)) (x : J) (top : Path)
+    (fs : FS) : ShapeFork params x (processStructOuts Gen.postProcessDimAware ps params x top fs).1 := by
+  rw [dim_aware]
+  exact processStructOuts_shape ps params x top fs
+
+/-- `shape_preserved` for a top-level call mapped over an array (`postArray`:
+one record per fork, as many forks as before, fork `i` under `outs/<i>`) and
+over a typed map (`postMap`: the same fork keys in the same order). -/
+theorem shape_preserved_mapped (ps : Path) (params : List (String × String × Ty)) (top : Path) (fs : FS) :
+    (∀ xs, All2 (ShapeFork params) xs (postArray Gen.postProcessDimAware ps params top 0 xs fs).1) ∧
+    (∀ kvs, (postMap Gen.postProcessDimAware ps params top kvs fs).1.map Prod.fst = kvs.map Prod.fst ∧
+      All2 (ShapeFork params) (kvs.map Prod.snd)
+        ((postMap Gen.postProcessDimAware ps params top kvs fs).1.map Prod.snd)) := by
+  rw [dim_aware]
+  exact ⟨fun xs => postArray_shape ps params top 0 xs fs, fun kvs => postMap_shape ps params top kvs fs⟩
+
+example (xs ys : List J) (R : J → J → Prop) (h : All2 R xs ys) : ys.length = xs.length := h.length_eq
 
 /-! ### F5: multi-dimensional arrays (negative witness for the code before the repair) -/
 
